@@ -244,7 +244,7 @@ pub fn emit_b_module(id: usize, l: &Layout, o: &EmitOpts, consts: Option<&str>) 
             }
             let m = method_name(f);
             if f.is_array() {
-                writeln!(s, "        .with_{}(core::array::from_fn(|k| {{ let v = args[{}][k]; {} }}))", m, n, set_conv(l, &f.ty, "v")).unwrap();
+                writeln!(s, "        .with_{}(::core::array::from_fn(|k| {{ let v = args[{}][k]; {} }}))", m, n, set_conv(l, &f.ty, "v")).unwrap();
             } else {
                 writeln!(s, "        .with_{}({{ let v = args[{}][0]; {} }})", m, n, set_conv(l, &f.ty, "v")).unwrap();
             }
@@ -288,7 +288,7 @@ pub fn emit_b_module(id: usize, l: &Layout, o: &EmitOpts, consts: Option<&str>) 
         let n = native(l.base_bits);
         writeln!(
             s,
-            "        size_align: Some((core::mem::size_of::<S>(), core::mem::align_of::<S>(), core::mem::size_of::<{}>(), core::mem::align_of::<{}>())),",
+            "        size_align: Some((::core::mem::size_of::<S>(), ::core::mem::align_of::<S>(), ::core::mem::size_of::<{}>(), ::core::mem::align_of::<{}>())),",
             n, n
         )
         .unwrap();
@@ -350,6 +350,22 @@ pub fn verif_root() -> String {
     std::env::var("BBV_VERIF_ROOT").unwrap_or_else(|_| crate::common::verif())
 }
 
+/// Build context of the user's crate, varied per generated crate: edition 2021 / 2018 / 2024 and a declared
+/// `rust-version` (none / 1.70 / 1.82). Nothing the properties say depends on either; a macro that emits
+/// edition-dependent code (a trait that is only in the 2021 prelude) or looks at CARGO_PKG_RUST_VERSION shows here.
+pub fn package_context(c: usize) -> String {
+    let edition = ["2021", "2018", "2021", "2024"][c % 4];
+    // (edition 2024 needs 1.85 at least)
+    let rv = match c % 8 {
+        1 => "rust-version = \"1.70\"\n",
+        2 => "rust-version = \"1.82\"\n",
+        3 => "rust-version = \"1.85\"\n",
+        5 => "rust-version = \"1.60\"\n",
+        _ => "",
+    };
+    format!("edition = \"{}\"\n{}", edition, rv)
+}
+
 fn macro_path() -> String {
     std::env::var("BBV_MACRO_PATH").unwrap_or_else(|_| REPO_MACRO.to_string())
 }
@@ -379,8 +395,9 @@ pub fn write_b_workspace(dir: &Path, crate_prefix: &str, modules: &[(String, Str
         writeln!(main, "fn main() {{\n    rt::{}(vec![\n        {}\n    ]);\n}}", if enums { "main_enums" } else { "main_layouts" }, entries.join(",\n        ")).unwrap();
         std::fs::write(cdir.join("src/main.rs"), main).unwrap();
         let toml = format!(
-            "[package]\nname = \"{}\"\nversion = \"0.0.0\"\nedition = \"2021\"\n\n[dependencies]\nbitbybit = {{ path = \"{}\" }}\narbitrary-int = \"1.3.0\"\nrt = {{ path = \"{}/engine/rt\" }}\n",
+            "[package]\nname = \"{}\"\nversion = \"0.0.0\"\n{}\n[dependencies]\nbitbybit = {{ path = \"{}\" }}\narbitrary-int = \"1.3.0\"\nrt = {{ path = \"{}/engine/rt\" }}\n",
             name,
+            package_context(c),
             macro_path(),
             verif_root()
         );
@@ -434,12 +451,27 @@ pub fn write_v_crate_n(dir: &Path, name: &str, files: &[(String, String)], no_st
         }
         std::fs::write(cdir.join("src/lib.rs"), lib).unwrap();
         let toml = format!(
-            "[package]\nname = \"{}\"\nversion = \"0.0.0\"\nedition = \"2021\"\n\n[dependencies]\nbitbybit = {{ path = \"{}\" }}\narbitrary-int = \"1.3.0\"\n",
+            "[package]\nname = \"{}\"\nversion = \"0.0.0\"\n{}\n[dependencies]\nbitbybit = {{ path = \"{}\" }}\narbitrary-int = \"1.3.0\"\n",
             cname,
+            package_context(c),
             macro_path()
         );
         std::fs::write(cdir.join("Cargo.toml"), toml).unwrap();
         members.push(format!("\"{}\"", cname));
+    }
+    // `<name>_dep` depends on every crate of the workspace: `cargo check -p <name>_dep` compiles them as
+    // *dependencies* (not as primary packages) — the way a library holding bitfield declarations is usually built
+    {
+        let dname = format!("{}_dep", name);
+        let ddir = dir.join(&dname);
+        std::fs::create_dir_all(ddir.join("src")).unwrap();
+        std::fs::write(ddir.join("src/lib.rs"), "//! depends on every generated crate\n").unwrap();
+        let mut toml = format!("[package]\nname = \"{}\"\nversion = \"0.0.0\"\nedition = \"2021\"\n\n[dependencies]\n", dname);
+        for c in 0..ncrates {
+            toml.push_str(&format!("{}_{} = {{ path = \"../{}_{}\" }}\n", name, c, name, c));
+        }
+        std::fs::write(ddir.join("Cargo.toml"), toml).unwrap();
+        members.push(format!("\"{}\"", dname));
     }
     let ws = format!(
         "[workspace]\nresolver = \"2\"\nmembers = [{}]\n\n[profile.dev]\ndebug = 0\nincremental = false\n\n[profile.release]\ndebug = 0\nincremental = false\n",
